@@ -172,6 +172,8 @@ int instr_tok__r(struct instr *instr_buffer, char *comp_instr)
   __CPROVER_assigns(__CPROVER_object_whole(instr_buffer), __CPROVER_object_whole(g_buf))
   __CPROVER_ensures(OPD_STR_OK(instr_buffer) && OPD_TYPES_OK(instr_buffer) && TOK_REL(instr_buffer))
   __CPROVER_ensures(__CPROVER_return_value == EXIT_SUCCESS ==> !HAS_T(instr_buffer, 'e'))
+  /* every immediate operand went through imm_tok, every memory operand through mem_tok */
+  __CPROVER_ensures(__CPROVER_return_value == EXIT_SUCCESS ==> (instr_buffer->imm == HAS_T(instr_buffer, 'i') && instr_buffer->mem_disp == HAS_T(instr_buffer, 'm')))
   __CPROVER_ensures(instr_buffer->assembly_opt == __CPROVER_old(instr_buffer->assembly_opt) ||
                     instr_buffer->assembly_opt == (__CPROVER_old(instr_buffer->assembly_opt) | NASM_MOV_IMM))
   __CPROVER_ensures(instr_buffer->mod_disp == 0 || instr_buffer->mod_disp == MOD8 || instr_buffer->mod_disp == MOD16 || instr_buffer->mod_disp == MOD24)
